@@ -139,6 +139,40 @@ pub fn run_all(inp: &Inputs, reps: usize) -> Vec<(String, String)> {
     };
     let many: Vec<(usize, (MultiPolygon<f64>, MultiLineString<f64>, MultiPoint<f64>))> = [16usize, 64, 257].iter().map(|&n| (n, many_members(n))).collect();
     for rep in 0..reps {
+        // equal input after a different earlier input of the same size: the concave hull of each of eight 9-point sets first on its own ("rep0"), then
+        // directly after the hull of each other set ("rep1") - a result remembered from the previous call must not leak into the next one
+        if rep == 0 {
+            let mut sets: Vec<Vec<Coord<f64>>> = vec![
+                vec![(2.0, 0.0), (3.0, 1.0), (4.0, 3.0), (1.0, 2.0), (1.0, 1.0), (2.0, 3.0), (3.0, 2.0), (0.0, 5.0), (4.0, 0.0)].into_iter().map(|(x, y)| Coord { x, y }).collect(),
+                vec![(0.0, 5.0), (2.0, 3.0), (5.0, 5.0), (5.0, 4.0), (3.0, 5.0), (4.0, 0.0), (1.0, 0.0), (1.0, 1.0), (2.0, 0.0)].into_iter().map(|(x, y)| Coord { x, y }).collect(),
+            ];
+            for salt in 0..6u64 {
+                // nine distinct points of a 6x6 lattice
+                let mut v: Vec<Coord<f64>> = vec![];
+                for (a, b) in irregular(40, 1000 + salt) {
+                    let c = Coord { x: ((a + 150.0) / 50.0).floor(), y: ((b + 60.0) / 20.0).floor() };
+                    if !v.contains(&c) && v.len() < 9 {
+                        v.push(c);
+                    }
+                }
+                if v.len() == 9 {
+                    sets.push(v);
+                }
+            }
+            for k in [3usize, 4] {
+                let alone: Vec<String> = sets.iter().map(|b| format!("{:?}", b.k_nearest_concave_hull(k as u32))).collect();
+                for (i, a) in sets.iter().enumerate() {
+                    for (j, b) in sets.iter().enumerate() {
+                        if i == j {
+                            continue;
+                        }
+                        rec(format!("k_nearest_concave_hull on its own vs right after another set of the same size|k{}|set{} after set{}|rep0", k, j, i), alone[j].clone());
+                        let _ = a.k_nearest_concave_hull(k as u32);
+                        rec(format!("k_nearest_concave_hull on its own vs right after another set of the same size|k{}|set{} after set{}|rep1", k, j, i), format!("{:?}", b.k_nearest_concave_hull(k as u32)));
+                    }
+                }
+            }
+        }
         // equal input, different identity: an operation on (p, equal copy of p) ("rep0") and on (p, p itself) ("rep1"); likewise for operands that are
         // clones of each other at different addresses. The polygons are deliberately not in the overlay's canonical form (clockwise, starting at a
         // middle vertex, with collinear vertices, holes in descending order)
